@@ -147,74 +147,142 @@ def _montecarlo(ck: Checker, prog: Program):
         ck.ok("C14.R3", q, "rng = default_rng() only when no generator is given")
     else:
         ck.violation("C14.R3", q, "rng fallback", "`rng` is replaced or re-seeded other than `default_rng()` when it is None", loc=f.loc())
-    # draw parameters: realization(_mean, _stddev) for zip(generator_means, generator_stddevs)
-    nested = [g for g in prog.funcs.values() if g.parent is f and g.kind == "nested"]
-    okd = False
-    if len(nested) == 1:
-        r = [x for x in own_nodes(nested[0].node) if isinstance(x, ast.Return)]
-        okd = len(r) == 1 and unparse(r[0].value) == f"rng.normal({nested[0].params[0]}, {nested[0].params[1]}, size=n_realizations)"
+    _montecarlo_table(ck, prog, f)
+
+
+def _holds(lit, assign) -> Optional[bool]:
+    """Truth of an (in)equality literal over string-valued arguments under a finite assignment."""
+    def val(e):
+        e = e.xreplace(assign)
+        return e
+    if isinstance(lit, (sp.Eq, sp.Ne)):
+        a, b = val(lit.lhs), val(lit.rhs)
+        in_ = sp.Function("in_")
+        if b == sp.true and getattr(a, "func", None) == sp.Function("in_"):
+            item, cont = a.args
+            if isinstance(cont, sp.Tuple) and item.is_Symbol and item.name.startswith("'") and all(c.is_Symbol and c.name.startswith("'") for c in cont):
+                r = item in list(cont)
+                return r if isinstance(lit, sp.Eq) else not r
+            return None
+        if b == sp.true and getattr(a, "func", None) == sp.Function("truth"):
+            inner = a.args[0]
+            if isinstance(inner, (sp.Eq, sp.Ne)) or inner in (sp.true, sp.false):
+                r = _holds(inner, assign) if inner not in (sp.true, sp.false) else bool(inner)
+                return None if r is None else (r if isinstance(lit, sp.Eq) else not r)
+            return None
+        if a.is_Symbol and b.is_Symbol and a.name.startswith("'") and b.name.startswith("'"):
+            r = a == b
+            return r if isinstance(lit, sp.Eq) else not r
+        return None
+    if isinstance(lit, sp.Not):
+        r = _holds(lit.args[0], assign)
+        return None if r is None else not r
+    if isinstance(lit, sp.And):
+        rs = [_holds(x, assign) for x in lit.args]
+        return None if any(r is None for r in rs) else all(rs)
+    if isinstance(lit, sp.Or):
+        rs = [_holds(x, assign) for x in lit.args]
+        return None if any(r is None for r in rs) else any(rs)
+    if lit in (sp.true, sp.false):
+        return bool(lit)
+    return None
+
+
+def _montecarlo_table(ck: Checker, prog: Program, f):
+    """The function as a decision table over the four (generator, spatial) distribution pairs."""
+    from ..pathtable import PathTable, literals
+    q = f.qualname
+    R = lambda n: sp.Symbol(n, real=True)   # noqa: E731
+    G, S_, W, RNG, NR = R("distribution_generators"), R("distribution_spatial"), R("generator_weights"), R("rng"), R("n_realizations")
+    GM, GS = R("generator_means"), R("generator_stddevs")
+    NONE = sp.Symbol("None")
+    gi = sp.Function("getitem")
+    pt = PathTable(prog, f.module, scope=f)
+    leaves = pt.leaves(f.node.body)
+    rets = [l for l in leaves if l.exit == "return"]
+    if not rets:
+        raise AnalysisError(f"{q}: no returning path")
     loops = [st for st in f.node.body if isinstance(st, ast.For)]
-    okl = len(loops) == 1 and unparse(loops[0].iter) == "enumerate(zip(generator_means, generator_stddevs))" \
-        and [unparse(st) for st in loops[0].body] == [f"realizations[{unparse(loops[0].target.elts[0])}, :] = realization({', '.join(unparse(e) for e in loops[0].target.elts[1].elts)})"]
-    if okd and okl:
-        ck.ok("C14.R3", q, "row r = rng.normal(mean_r, stddev_r, n_realizations)")
+    if len(loops) != 1:
+        raise AnalysisError(f"{q}: expected one loop drawing the realisations, found {len(loops)}")
+    lp = loops[0]
+    # ---- draws: row r = rng.normal(mean_r, stddev_r, n_realizations), rows paired by zip(generator_means, generator_stddevs)
+    okd = True
+    why = ""
+    for l in rets:
+        if id(lp) not in l.snaps:
+            okd, why = False, "a returning path skips the draws"
+            continue
+        env0 = dict(l.snaps[id(lp)][0])
+        T0 = Translator(env=env0)
+        it = T0.tr(lp.iter)
+        want_it = sp.Function("enumerate")(sp.Function("zip")(GM, GS))
+        tg = lp.target
+        if it != want_it or not (isinstance(tg, ast.Tuple) and len(tg.elts) == 2 and isinstance(tg.elts[1], ast.Tuple) and len(tg.elts[1].elts) == 2):
+            okd, why = False, f"the loop runs over {it}"
+            continue
+        ROW, M, SD = sp.Symbol("<row>", integer=True), R("<mean>"), R("<stddev>")
+        env = dict(env0)
+        env[unparse(tg.elts[0])] = ROW
+        env[unparse(tg.elts[1].elts[0])] = M
+        env[unparse(tg.elts[1].elts[1])] = SD
+        sub = PathTable(prog, f.module, env=env, scope=f).leaves(lp.body)
+        rng_now = env0.get("rng", RNG)
+        is_none = any(str(x) == str(sp.Eq(RNG, NONE, evaluate=False)) for x in literals(l))
+        want_rng = sp.Function("default_rng")() if is_none else RNG
+        stores = [(x, sl.store_at[id(x[3])]) for sl in sub for x in sl.events if x[0] == "store" and id(x[3]) in sl.store_at]
+        ALL = sp.Function("slice")(NONE, NONE, NONE)
+        good = len(sub) == 1 and len(stores) == 1 and stores[0][1][1] == sp.Function("idx")(ROW, ALL) \
+            and stores[0][0][2] == sp.Function("normal")(want_rng, M, SD, NR)
+        if not good:
+            okd = False
+            why = f"row store {[(str(s_[1][1]), str(s_[0][2])) for s_ in stores]} with rng {'None' if is_none else 'given'}"
+    if okd:
+        ck.ok("C14.R3", q, "row r = rng.normal(mean_r, stddev_r, n_realizations)", detail="rng = default_rng() exactly when no generator is given")
     else:
-        ck.violation("C14.R3", q, "realisations", "row r of the realisations is not rng.normal(generator_means[r], generator_stddevs[r], size=n_realizations)", loc=f.loc())
-    # R4 conversion table
-    conv = [st for st in f.node.body if isinstance(st, ast.If) and "distribution_generators ==" in unparse(st.test) and "distribution_spatial ==" in unparse(st.test)]
-    if len(conv) != 1:
-        raise AnalysisError(f"{q}: conversion ladder not found")
-    table = {}
-    cur = conv[0]
-    while isinstance(cur, ast.If):
-        t = cur.test
-        key = None
-        if isinstance(t, ast.BoolOp) and isinstance(t.op, ast.And) and len(t.values) == 2:
-            d = {}
-            for v in t.values:
-                if isinstance(v, ast.Compare) and isinstance(v.ops[0], ast.Eq) and isinstance(v.comparators[0], ast.Constant):
-                    d[unparse(v.left)] = v.comparators[0].value
-            key = (d.get("distribution_generators"), d.get("distribution_spatial"))
-        acts = [unparse(b) for b in cur.body]
-        table[key] = acts
-        if len(cur.orelse) == 1 and isinstance(cur.orelse[0], ast.If):
-            cur = cur.orelse[0]
-        else:
-            table["else"] = [unparse(b) for b in cur.orelse]
-            break
-    want = {("lognormal", "normal"): ["realizations = np.exp(realizations)"], ("normal", "lognormal"): ["realizations = np.log(realizations)"], "else": ["pass"]}
-    if table == want:
-        ck.ok("C14.R4", q, "(lognormal, normal) -> exp; (normal, lognormal) -> log; otherwise identity")
-    else:
-        ck.violation("C14.R4", q, "conversion table", f"conversion table is {table}; expected {want}", loc=f.loc(conv[0]))
-    stat = [st for st in f.node.body if isinstance(st, ast.Assign) and calls_in(st.value, "_statistics")]
-    back = [st for st in f.node.body if isinstance(st, ast.If) and st is not conv[0] and any("np.exp(fn_mean)" in unparse(b) for b in st.body)]
-    okb = len(stat) == 1 and unparse(stat[0].value) == "_statistics(realizations, generator_weights)" and unparse(stat[0].targets[0]) == "(fn_mean, fn_stddev)" \
-        and conv[0].end_lineno < stat[0].lineno
-    if okb:
-        ck.ok("C14.R4", q, norm_key(stat[0]), detail="statistics of the converted realisations with the given weights")
-    else:
-        ck.violation("C14.R4", q, "statistics call", "the spatial statistics are not _statistics(converted realisations, generator_weights)", loc=f.loc())
-    okbt = len(back) == 1 and unparse(back[0].test) == "distribution_spatial == 'lognormal'" and not back[0].orelse \
-        and sorted(unparse(b) for b in back[0].body) == ["fn_mean = np.exp(fn_mean)", "realizations = np.exp(realizations)"] \
-        and stat and back[0].lineno > stat[0].lineno
-    if okbt:
-        ck.ok("C14.R4", q, norm_key(back[0]), detail="mean and realisations brought back from log space iff the spatial distribution is lognormal")
-    else:
-        ck.violation("C14.R4", q, "back-transform",
-                     f"the back-transform is controlled by `{unparse(back[0].test) if back else None}`; it must depend on distribution_spatial == 'lognormal' "
-                     f"(the space in which the statistics were taken)", loc=f.loc(back[0]) if back else f.loc())
-    rets = [r for r in own_nodes(f.node) if isinstance(r, ast.Return) and parent_of(r) is f.node]
-    if len(rets) == 1 and unparse(rets[0].value) == "(fn_mean, fn_stddev, realizations)":
-        ck.ok("C14.R4", q, "returns (fn_mean, fn_stddev, realizations)", nontrivial=False)
-    else:
-        ck.violation("C14.R4", q, "return", "does not return (fn_mean, fn_stddev, realizations)", loc=f.loc())
-    guards = {unparse(st.test): st for st in f.node.body if isinstance(st, ast.If) and any(isinstance(b, ast.Raise) for b in st.body)}
-    need = {"distribution_generators not in ['normal', 'lognormal']", "distribution_spatial not in ['normal', 'lognormal']"}
-    if need <= set(guards):
+        ck.violation("C14.R3", q, "realisations", f"row r of the realisations is not rng.normal(generator_means[r], generator_stddevs[r], size=n_realizations) ({why})", loc=f.loc(lp))
+    # ---- the four distribution pairs
+    RL = R("realizations")
+    names = {"normal": sp.Symbol("'normal'"), "lognormal": sp.Symbol("'lognormal'")}
+    n_ok = 0
+    for g in ("normal", "lognormal"):
+        for s_ in ("normal", "lognormal"):
+            assign = {G: names[g], S_: names[s_]}
+            cands = []
+            for l in rets:
+                vals = [_holds(x, assign) for x in literals(l) if x.has(G) or x.has(S_)]
+                if any(v is None for v in vals):
+                    raise AnalysisError(f"{q}: a condition on the distributions could not be evaluated ({[str(x) for x in literals(l)]})")
+                if all(vals):
+                    cands.append(l)
+            if not cands:
+                ck.violation("C14.R4", q, f"({g}, {s_})", f"no result is returned for generators '{g}' / spatial '{s_}'", loc=f.loc())
+                continue
+            conv = sp.exp(RL) if (g, s_) == ("lognormal", "normal") else sp.log(RL) if (g, s_) == ("normal", "lognormal") else RL
+            st = sp.Function("_statistics")(conv, W)
+            mean, std = gi(st, sp.Integer(0)), gi(st, sp.Integer(1))
+            want = sp.Tuple(sp.exp(mean), std, sp.exp(conv)) if s_ == "lognormal" else sp.Tuple(mean, std, conv)
+            bad = [l for l in cands if not (isinstance(l.value, sp.Tuple) and len(l.value) == 3 and all(equal(a, b) for a, b in zip(l.value, want)))]
+            if not bad:
+                n_ok += 1
+                ck.ok("C14.R4", q, f"({g}, {s_}): statistics of {conv}; {'exp of mean and realisations' if s_ == 'lognormal' else 'no back-transform'}")
+            else:
+                ck.violation("C14.R4", q, f"({g}, {s_})",
+                             f"for generators '{g}' and spatial distribution '{s_}' the function returns {bad[0].value}; expected {want} "
+                             f"(conversion into the space of the spatial distribution, statistics with the given weights, back-transform iff lognormal)", loc=f.loc())
+    # ---- unknown names raise
+    T2 = sp.Function("in_")
+    okn = True
+    for sym in (G, S_):
+        for l in rets:
+            member = [x for x in literals(l) if isinstance(x, sp.Eq) and x.rhs == sp.true and getattr(x.lhs, "func", None) == T2 and x.lhs.args[0] == sym
+                      and isinstance(x.lhs.args[1], sp.Tuple) and set(x.lhs.args[1]) == set(names.values())]
+            if not member:
+                okn = False
+    if okn and any(l.exit == "raise" for l in leaves):
         ck.ok("C14.R4", q, "unknown distribution names raise")
     else:
-        ck.violation("C14.R4", q, "unknown names", f"unknown distribution names are not refused (guards: {sorted(guards)})", loc=f.loc())
+        ck.violation("C14.R4", q, "unknown names", "unknown distribution names are not refused before the realisations are drawn", loc=f.loc())
     rd = reaching(f)
     for p in ("distribution_generators", "distribution_spatial", "generator_weights"):
         uses = [n for n in own_nodes(f.node) if isinstance(n, ast.Name) and n.id == p and isinstance(n.ctx, ast.Load)]
@@ -251,34 +319,99 @@ def _spatial(ck: Checker, prog: Program):
     else:
         ck.violation("C14.R5", m.qualname, "culling pairs",
                      f"per sensor the (point, index) appends happen {sorted(res)} times: the returned indices would not identify the retained sensors", loc=m.loc(lp))
-    idxv = unparse(lp.target.elts[0])
-    xy = [unparse(e) for e in lp.target.elts[1].elts] if isinstance(lp.target.elts[1], ast.Tuple) else []
-    app = {unparse(c.func.value): unparse(c.args[0]) for c in calls_in(lp, "append")}
-    sel = [st for st in lp.body if isinstance(st, ast.If)]
-    ok = app == {"passing_points": f"[{', '.join(xy)}]", "passing_indices": idxv} and len(sel) == 1 and unparse(sel[0].test) == "mask.contains(p)"
-    pdef = [st for st in lp.body if isinstance(st, ast.Assign) and unparse(st.targets[0]) == "p"]
-    ok = ok and len(pdef) == 1 and unparse(pdef[0].value) == f"Point({', '.join(xy)})"
-    rets = [r for r in own_nodes(m.node) if isinstance(r, ast.Return)]
-    ok = ok and len(rets) == 1 and unparse(rets[0].value) == "(np.array(passing_points), passing_indices)"
+    # containment decision as a decision table of the loop body
+    from ..pathtable import PathTable, literals, same_rel
+    from ..resolve import Resolver, canon
+    ok = False
+    why = "loop header not recognised"
+    if it_ok and isinstance(lp.target, ast.Tuple) and len(lp.target.elts) == 2 and isinstance(lp.target.elts[1], ast.Tuple) and len(lp.target.elts[1].elts) == 2:
+        IDX, X, Y = sp.Symbol("<index>", integer=True), sp.Symbol("<x>", real=True), sp.Symbol("<y>", real=True)
+        env = {unparse(lp.target.elts[0]): IDX, unparse(lp.target.elts[1].elts[0]): X, unparse(lp.target.elts[1].elts[1]): Y}
+        sub = PathTable(prog, m.module, env=env).leaves(lp.body)
+        inside = sp.Eq(sp.Function("truth")(sp.Function("contains")(sp.Symbol("mask", real=True), sp.Function("Point")(X, Y))), sp.true, evaluate=False)
+        keep, drop, other = [], [], []
+        for l in sub:
+            apps = [(e[3].value.func.value.id if isinstance(e[3].value.func.value, ast.Name) else "?", e[2].args[-1]) for e in l.events
+                    if e[0] == "call" and e[1].endswith(".append")]
+            lits = literals(l)
+            if any(same_rel(x, inside) for x in lits):
+                keep.append(apps)
+            elif apps:
+                other.append(apps)
+            else:
+                drop.append(apps)
+        rets = [r for r in own_nodes(m.node) if isinstance(r, ast.Return)]
+        pts_name = idx_name = None
+        if len(rets) == 1 and isinstance(rets[0].value, ast.Tuple) and len(rets[0].value.elts) == 2:
+            a0, a1 = rets[0].value.elts
+            if isinstance(a0, ast.Call) and call_name(a0) in ("array", "asarray") and a0.args and isinstance(a0.args[0], ast.Name):
+                pts_name = a0.args[0].id
+            if isinstance(a1, ast.Name):
+                idx_name = a1.id
+        want = sorted([(pts_name or "?", sp.Tuple(X, Y)), (idx_name or "?", IDX)], key=str)
+        ok = bool(keep) and not other and all(sorted(k, key=str) == want for k in keep) and pts_name is not None and idx_name is not None
+        why = f"kept paths append {keep}; other appending paths {other}; returned ({pts_name}, {idx_name})"
     if ok:
         ck.ok("C14.R5", m.qualname, "kept iff the boundary mask contains the sensor; index = position in the coordinate list")
     else:
-        ck.violation("C14.R5", m.qualname, "containment test", "sensors are not kept exactly when the boundary mask contains them, with their own index", loc=m.loc())
+        ck.violation("C14.R5", m.qualname, "containment test", f"sensors are not kept exactly when the boundary mask contains them, with their own index ({why})", loc=m.loc())
     # weights
     w = cls.methods["_voronoi_weights"]
-    d = {unparse(st.targets[0]): unparse(st.value) for st in w.node.body if isinstance(st, ast.Assign)}
+    RW = Resolver(prog, w, inline=False)
     rets = [r for r in own_nodes(w.node) if isinstance(r, ast.Return)]
-    good = d.get("mask") == "self._boundary_to_mask(boundary)" and d.get("total_area") == "mask.area" \
-        and d.get("(regions, indices)") == "self._bounded_voronoi(mask)" and len(rets) == 1 and unparse(rets[0].value) == "(areas / total_area, indices)"
-    lps = [st for st in w.node.body if isinstance(st, ast.For)]
-    good = good and len(lps) == 1 and unparse(lps[0].iter) == "enumerate(regions)" and \
-        any(isinstance(b, ast.Assign) and unparse(b.targets[0]) == f"areas[{unparse(lps[0].target.elts[0])}]" and unparse(b.value) == "Polygon(closed_points).area" for b in lps[0].body)
+    good = False
+    why = "return not recognised"
+    if len(rets) == 1 and isinstance(rets[0].value, ast.Tuple) and len(rets[0].value.elts) == 2:
+        e0, e1 = rets[0].value.elts
+        SELF, B = RW.expect("self"), RW.expect("boundary")
+        MASKV = sp.Function("_boundary_to_mask")(SELF, B)
+        BV = sp.Function("_bounded_voronoi")(SELF, MASKV)
+        gi = sp.Function("getitem")
+        regions_v, indices_v = gi(BV, sp.Integer(0)), gi(BV, sp.Integer(1))
+        v1 = canon(RW.value(e1, rets[0]))
+        total = sp.Function("attr_area")(MASKV)
+
+        def area_of(reg):
+            return sp.Function("attr_area")(sp.Function("Polygon")(sp.Function("vstack")(sp.Tuple(reg, gi(reg, sp.Integer(0))))))
+        # areas: comprehension or fill loop
+        areas_ok = False
+        if isinstance(e0, ast.BinOp) and isinstance(e0.op, ast.Div):
+            den = canon(RW.value(e0.right, rets[0]))
+            num_node = e0.left
+            lps = [st for st in w.node.body if isinstance(st, ast.For)]
+            if isinstance(num_node, ast.Name) and len(lps) == 1:
+                lp2 = lps[0]
+                itv = canon(RW.value(lp2.iter, lp2))
+                if itv == sp.Function("enumerate")(regions_v) and isinstance(lp2.target, ast.Tuple) and len(lp2.target.elts) == 2:
+                    I2, REG = sp.Symbol("<i>", integer=True), sp.Symbol("<region>", real=True)
+                    sub = PathTable(prog, w.module, env={unparse(lp2.target.elts[0]): I2, unparse(lp2.target.elts[1]): REG}).leaves(lp2.body)
+                    st_ = [(sl.store_at[id(x[3])], x[2], x[3]) for sl in sub for x in sl.events if x[0] == "store" and id(x[3]) in sl.store_at]
+                    areas_ok = len(sub) == 1 and len(st_) == 1 and st_[0][0][1] == I2 and st_[0][1] == area_of(REG) \
+                        and isinstance(st_[0][2].targets[0].value, ast.Name) and st_[0][2].targets[0].value.id == num_node.id
+            else:
+                num = canon(RW.value(num_node, rets[0]))
+                it0 = sp.Symbol("_it0")
+                areas_ok = num == sp.Function("comp")(area_of(it0), sp.Function("gen")(it0, regions_v))
+            good = areas_ok and den == total and v1 == indices_v
+            why = f"areas ok: {areas_ok}; divided by {den}; indices {v1}"
     if good:
         ck.ok("C14.R5", w.qualname, "weights = cell areas / area of the convex-hull mask; indices from the same tessellation")
     else:
         ck.violation("C14.R5", w.qualname, "area weights",
-                     f"weights are not (clipped cell areas)/(area of the convex-hull mask) with indices from the same _bounded_voronoi(mask) call "
-                     f"(total_area = {d.get('total_area')})", loc=w.loc())
+                     f"weights are not (clipped cell areas)/(area of the convex-hull mask) with indices from the same _bounded_voronoi(mask) call ({why})", loc=w.loc())
+    # the rays that close unbounded cells point away from the centroid of the sensors
+    fp = cls.methods.get("_voronoi_finite_polygons_2d")
+    if fp is not None:
+        RF = Resolver(prog, fp, inline=False)
+        uses = [n for n in own_nodes(fp.node) if isinstance(n, ast.Name) and n.id == "center" and isinstance(n.ctx, ast.Load)]
+        cdefs = [st for st in own_nodes(fp.node) if isinstance(st, ast.Assign) and any(isinstance(t, ast.Name) and t.id == "center" for t in st.targets)]
+        if len(cdefs) == 1:
+            v = canon(RF.value(cdefs[0].value, cdefs[0]))
+            want_c = canon(RF.expect("vor.points.mean(axis=0)"))
+            if v == want_c:
+                ck.ok("C14.R5", fp.qualname, "centre = centroid of the sensors (mean over the points)", nontrivial=False)
+            else:
+                ck.violation("C14.R5", fp.qualname, "centre of the sensors", f"the centre used to orient the unbounded cells is {v}, not the centroid {want_c}", loc=fp.loc(cdefs[0]))
     bm = cls.methods["_boundary_to_mask"]
     rets = [r for r in own_nodes(bm.node) if isinstance(r, ast.Return)]
     if len(rets) == 1 and unparse(rets[0].value).endswith(".convex_hull"):
